@@ -4,7 +4,11 @@
 # depend on golang.org/x/tools/go/packages crash under this toolchain and are not in the baseline).
 export GOFLAGS=-mod=mod GOPROXY=off GOSUMDB=off GOTOOLCHAIN=local
 OUT=$(mktemp)
-(cd "${BASELINE_REPO:-/repo}" && go test -json -vet=off -count=1 -timeout 25m ./... > "$OUT" 2>/dev/null)
+# the suite's own helpers leave their temporary directories behind when a package crashes: give the
+# run a private TMPDIR and remove it afterwards
+SCRATCH=$(mktemp -d)
+(cd "${BASELINE_REPO:-/repo}" && TMPDIR="$SCRATCH" go test -json -vet=off -count=1 -timeout 25m ./... > "$OUT" 2>/dev/null)
+rm -rf "$SCRATCH"
 python3 - "$OUT" <<'PY'
 import json,sys
 base=json.load(open('/root/.vp/BASELINE.json'))['stable_pass']
